@@ -65,7 +65,19 @@ type verifMNat struct {
 	// bounds fix, which keeps the terms small and removes forks. The zero record is [0,0]. Checked
 	// natively (TestVerifSaferithModel compares lb <= real value <= ub after every step).
 	lb, ub uint64
+	// um > 1: v is known to be coprime to um (a CONCRETE number: a modulus of the key). The mark is put
+	// on an input by a harness that assumed the input to be a unit (verifMarkUnit) and is propagated
+	// by the operations that preserve it (copy, reduction modulo a divisor of um, modular product /
+	// power / inverse / negation of marked operands); every other operation clears it. Like the
+	// bounds it never changes a value: it lets ModInverse, ExpI and Coprime skip a coprimality test
+	// whose outcome is known - which the solver would otherwise have to re-derive through every
+	// multiplication ("a product of units is a unit"). Checked natively (gcd(value, um) = 1 after
+	// every step of TestVerifSaferithModel).
+	um uint64
 }
+
+// verifMUnitFor: x is known to be coprime to m (m divides the mark).
+func verifMUnitFor(x *verifMNat, m uint64) bool { return x.um > 1 && m > 0 && x.um%m == 0 }
 
 const verifMaxU = ^uint64(0)
 
@@ -134,7 +146,7 @@ func verifMResized(x *verifMNat, nbits int) uint64 {
 	}
 	if nbits <= 64 {
 		if mk := verifMCapMask(nbits); x.ub > mk { // otherwise the mask cannot change the value
-			x.v, x.lb, x.ub = verifMTrunc(x.v, nbits), 0, mk
+			x.v, x.lb, x.ub, x.um = verifMTrunc(x.v, nbits), 0, mk, 0
 		}
 	}
 	return x.v
@@ -156,7 +168,7 @@ func verifMSetTrunc(z *verifMNat, v, lb, ub uint64, c int) {
 	if ub > mk {
 		v, lb, ub = verifMTrunc(v, c), 0, mk
 	}
-	z.v, z.ann, z.red, z.lb, z.ub = v, c, nil, lb, ub
+	z.v, z.ann, z.red, z.lb, z.ub, z.um = v, c, nil, lb, ub, 0
 }
 
 func verifMMaxAnn(x, y *verifMNat) int {
@@ -172,7 +184,7 @@ func verifMChoice(c bool) saferith.Choice { return saferith.Choice(verifB2U(c)) 
 func verifMEscapeIf(cond bool) { verifEscaped |= verifB2U(cond) }
 
 func verifMNatSetUint64(z *verifMNat, x uint64) {
-	z.v, z.ann, z.red, z.lb, z.ub = x, 64, nil, 0, verifMaxU
+	z.v, z.ann, z.red, z.lb, z.ub, z.um = x, 64, nil, 0, verifMaxU, 0
 }
 
 func verifMNatSetNat(z, x *verifMNat) {
@@ -180,13 +192,16 @@ func verifMNatSetNat(z, x *verifMNat) {
 		z.v = verifMResized(z, z.ann)
 		return
 	}
-	v, a, r, lb, ub := x.v, x.ann, x.red, x.lb, x.ub
+	v, a, r, lb, ub, um := x.v, x.ann, x.red, x.lb, x.ub, x.um
 	verifMTrunc(0, a) // z.resizedLimbs(x.announced): panics for a <= -64
-	z.v, z.ann, z.red, z.lb, z.ub = v, a, r, lb, ub
+	z.v, z.ann, z.red, z.lb, z.ub, z.um = v, a, r, lb, ub, um
 }
 
 func verifMNatResize(z *verifMNat, c int) {
-	v, lb, ub := verifMView(z, c)
+	v, lb, ub := verifMView(z, c) // (clears the mark if the value is cut)
+	if c <= 0 {
+		z.um = 0
+	}
 	z.v, z.ann, z.lb, z.ub = v, c, lb, ub
 }
 
@@ -222,7 +237,11 @@ func verifMNatCondAssign(z *verifMNat, yes saferith.Choice, x *verifMNat) {
 	m := verifMMaxAnn(z, x)
 	xv, xl, xu := verifMView(x, m)
 	zv, zl, zu := verifMView(z, m)
-	z.v, z.ann, z.lb, z.ub = verifMSelectBits(yes == 1, xv, zv), m, min(xl, zl), max(xu, zu)
+	um := z.um
+	if x.um != um || x.ann <= 0 || z.ann <= 0 || m <= 0 {
+		um = 0
+	}
+	z.v, z.ann, z.lb, z.ub, z.um = verifMSelectBits(yes == 1, xv, zv), m, min(xl, zl), max(xu, zu), um
 	if z.red != x.red {
 		z.red = nil
 	}
@@ -314,7 +333,7 @@ func verifMNatLsh(z, x *verifMNat, shift uint, c int) {
 			verifMEscapeIf(xv != 0)
 		}
 	}
-	z.v, z.ann, z.red, z.lb, z.ub = r, c, nil, lb, ub // no masking to c inside the top limb (as saferith)
+	z.v, z.ann, z.red, z.lb, z.ub, z.um = r, c, nil, lb, ub, 0 // no masking to c inside the top limb (as saferith)
 }
 
 func verifMNatDiv(z, x *verifMNat, m *verifMMod, c int) {
@@ -339,14 +358,22 @@ func verifMNatMod(z, x *verifMNat, m *verifMMod) {
 	}
 	// (x marked reduced by another Modulus object of the same value: saferith reduces again, which
 	// changes nothing but the announced length; verifMRed skips the division)
+	um := uint64(0)
+	if verifMUnitFor(x, m.v) && x.ann > 0 { // gcd(x mod m, m) = gcd(x, m)
+		um = m.v
+	}
 	v, lb, ub := verifMRedB(x, m)
-	z.v, z.ann, z.red, z.lb, z.ub = v, m.bits, m, lb, ub
+	z.v, z.ann, z.red, z.lb, z.ub, z.um = v, m.bits, m, lb, ub, um
 }
 
 func verifMNatModMul(z, x, y *verifMNat, m *verifMMod) {
 	// widened with respect to harness/e1/numctdiv: see verifMMulMod (zz_verif_sfmodel_ext.go)
+	um := uint64(0)
+	if verifMUnitFor(x, m.v) && verifMUnitFor(y, m.v) && x.ann > 0 && y.ann > 0 {
+		um = m.v
+	}
 	a, b := verifMRed(x, m), verifMRed(y, m)
-	z.v, z.ann, z.red, z.lb, z.ub = verifMMulMod(a, b, m.v), m.bits, m, 0, m.v-1
+	z.v, z.ann, z.red, z.lb, z.ub, z.um = verifMMulMod(a, b, m.v), m.bits, m, 0, m.v-1, um
 }
 
 func verifMModFromNat(m *verifMMod, n *verifMNat) {
@@ -528,7 +555,7 @@ func verifCModNat(m *saferith.Modulus) *saferith.Nat {
 	out := new(saferith.Nat)
 	r := verifModRec(m)
 	o := verifNatRec(out)
-	o.v, o.ann, o.red, o.lb, o.ub = r.v, r.bits, r.natRed, r.v, r.v
+	o.v, o.ann, o.red, o.lb, o.ub, o.um = r.v, r.bits, r.natRed, r.v, r.v, 0
 	return out
 }
 
